@@ -1011,7 +1011,7 @@ def check(run):
                        "and histories on one periodic variable object (modifycvcs changes of period/wrapAround interleaved with colvar::wrap, colvar::dist2 and wrap-then-dist2 calls). "
                        "distinct = distinct base line; non-trivial = arguments differ")
     run.assumptions += ["theorems are about the R instance of the model; the tie runs the float instance and compares with relative tolerance 1e-9 (acos, sqrt) and exactly for dyadic cases",
-                        "the model is of the code after the fix: commits of C18 (fix-C18-3: metric of sums of components with different periodicities; fix-C18: dist2_rgrad, wrap of spinAngle/eulerPhi/eulerPsi, periodic scripted distance, q/-q interpolation NaN)",
+                        "the model is of the code after the fix: commits of C18 (fix-C18-6: null gradient at opposite unit vectors, periodicity after modifycvcs; fix-C18-3: metric of sums of components with different periodicities; fix-C18: dist2_rgrad, wrap of spinAngle/eulerPhi/eulerPsi, periodic scripted distance, q/-q interpolation NaN)",
                         "NaN is outside the real-number model: the 0/0 of interpolating q and -q at 1/2 is seen by the oracle and the float tie only"]
     groups = gen_groups(r, 460 if quick else 20000)
     misc = gen_misc(r, 250 if quick else 8000)
